@@ -14,6 +14,8 @@ class Case(_Case):
 
 
 LEVEL = "proof"
+# C functions this check's models mirror (source-text fingerprints are recorded in the evidence, see translate/funchash.py)
+MODELLED_FUNCS = {'src/json/iwjser.c': ['_jbl_unescape_json_string', '_jbl_parse_json_key', '_jbl_parse_value', '_jbl_node_as_json'], 'src/json/iwjson.c': ['_jbl_write_json_string', '_jbl_as_json', 'iwjson_ftoa'], 'src/utils/iwconv.c': ['iwstrtod']}
 MANIFEST = dict(
     level="proof",
     text=("Lean 4 theorems over executable models of the JSON text layer (two-pass string unescaper, recursive-descent parser incl. "
